@@ -71,6 +71,8 @@ type Gate struct {
 var (
 	gatesMu stdsync.Mutex
 	gates   []*Gate
+	// processEpoch counts simulated process deaths (VerifProcessDied)
+	processEpoch atomic.Int64
 )
 
 func NewGate(max int) *Gate {
@@ -85,8 +87,15 @@ func NewGate(max int) *Gate {
 func (g *Gate) Start() {
 	simcore.LockYield("gate")
 	g.mu.Lock()
+	born := processEpoch.Load()
 	for g.n >= g.max {
 		g.c.Wait()
+		if processEpoch.Load() != born {
+			// a goroutine of a simulated process that has died meanwhile:
+			// it never runs again
+			g.mu.Unlock()
+			select {}
+		}
 	}
 	g.n++
 	g.mu.Unlock()
@@ -108,6 +117,23 @@ func (g *Gate) InUse() int {
 	g.mu.Lock()
 	defer g.mu.Unlock()
 	return g.n
+}
+
+// VerifProcessDied gives back every slot of every gate: the simulator calls it
+// when the simulated process dies. The goroutines of the dead process stay
+// blocked for good wherever they were (they are never resumed), and the slots
+// they hold in package-level gates - which a real process death resets with
+// everything else - would otherwise starve the processes simulated after it.
+func VerifProcessDied() {
+	processEpoch.Add(1)
+	gatesMu.Lock()
+	defer gatesMu.Unlock()
+	for _, g := range gates {
+		g.mu.Lock()
+		g.n = 0
+		g.c.Broadcast()
+		g.mu.Unlock()
+	}
 }
 
 // VerifGatesInUse is the sum of held slots over every gate ever created.
